@@ -44,7 +44,7 @@ class C04(Check):
             'traces_validated = real counts all of whose in-scope snapshots matched the model and whose exclusions/transfers respected clause (b). '
             'non-trivial = counts with at least one exclusion or transfer at which clause (b) was evaluated')
     assumptions = ['bounded election sizes', 'has-quota is evaluated with the rule\'s own comparison (Guarded tolerance)']
-    budget = {'quick': 115, 'thorough': 2400}
+    budget = {'quick': 240, 'thorough': 3000}
 
     def cases(self, tier):
         yield from families.standard(tier)
